@@ -3,7 +3,7 @@
    [avail f H] is the view of the parents (one fuel step less); the theorems hold
    for every hierarchy H, every layer and every fuel, i.e. whatever the parents are. *)
 From Coq Require Import ZArith List Bool.
-From OV Require Import Base.Wire Generated Model.Inherit Proofs.InheritProofs.
+From OV Require Import Base.Wire Generated Model.Inherit Proofs.InheritProofs Proofs.PriorityProofs.
 Import ListNotations.
 Open Scope Z_scope.
 
@@ -58,3 +58,27 @@ Theorem C09_nonvacuous :
   avail 5 H1 (mkLayer 3 TEcuVariant [mkPref 1 []; mkPref 2 []] []) = IOk [mkObj 1 0] /\
   avail 5 H2 (mkLayer 2 TEcuVariant [mkPref 0 []; mkPref 1 []] []) = IConflict.
 Proof. exact inherit_examples. Qed.
+
+(* WHICH object: an object seen under a name the layer does not define itself comes through a parent
+   of maximal priority among all parents exposing that name (after exclusion), and every exposing
+   parent of that same priority exposes the very same object -- so whenever two parents of equal,
+   maximal priority expose different objects the result is not IOk (a conflict is reported) *)
+Theorem C09_highest_priority_parent_wins : forall f H L os o,
+  avail (S f) H L = IOk os -> In o os -> ~ In (o_name o) (l_locals L) ->
+  exists via,
+    (exists p PL objs, In p (l_parents L) /\ find_layer (p_target p) H = Some PL /\ avail f H PL = IOk objs /\
+                       In o objs /\ memZ (o_name o) (p_excl p) = false /\ via = l_id PL) /\
+    forall p PL objs o',
+      In p (l_parents L) -> find_layer (p_target p) H = Some PL -> avail f H PL = IOk objs ->
+      In o' objs -> o_name o' = o_name o -> memZ (o_name o) (p_excl p) = false ->
+      layer_prio H (l_id PL) <= layer_prio H via /\
+      (layer_prio H (l_id PL) = layer_prio H via -> obj_eqb o' o = true).
+Proof. exact avail_priority. Qed.
+Print Assumptions C09_highest_priority_parent_wins.
+
+Theorem C09_priority_example :
+  let H := [mkLayer 0 TEcuShared [] [1]; mkLayer 1 TBaseVariant [] [1];
+            mkLayer 2 TEcuVariant [mkPref 1 []; mkPref 0 []] []] in
+  avail 5 H (mkLayer 2 TEcuVariant [mkPref 1 []; mkPref 0 []] []) = IOk [mkObj 1 0].
+Proof. exact priority_example. Qed.
+Print Assumptions C09_priority_example.
